@@ -56,6 +56,27 @@ fn cell(v: &mut ConnectionValidator, a: u32, ti: u32, tc: u32, ip: IpAddr, ip2: 
     Ok(got)
 }
 
+thread_local! {
+    /// first panic of the validator on a (forged) connection id: (message, id)
+    static PANICKED: std::cell::RefCell<Option<(String, i64)>> = const { std::cell::RefCell::new(None) };
+}
+
+/// `connection_id_valid` under catch_unwind: a panic is remembered (reported as `validator/panic`) and counts as a rejection
+fn cv(v: &mut ConnectionValidator, a: aquatic_common::CanonicalSocketAddr, id: ConnectionId) -> bool {
+    match std::panic::catch_unwind(std::panic::AssertUnwindSafe(|| v.connection_id_valid(a, id))) {
+        Ok(b) => b,
+        Err(e) => {
+            PANICKED.with(|p| {
+                let mut p = p.borrow_mut();
+                if p.is_none() {
+                    *p = Some((panic_message(&e), id.0.get()));
+                }
+            });
+            false
+        }
+    }
+}
+
 pub fn main(args: &Args) -> ! {
     let mut run = Run::new(args, "exploration");
     run.set("rule", "grid: max_connection_age x issue time x check-time offset x issuing IP x checking IP, oracle in unbounded integers; tampering: every single-bit and double-bit alteration of issued ids, ids of a second validator, ids for another address, structured forgeries, each at every check time at which the unaltered id is accepted; a case is non-trivial when the unaltered id is accepted at that point (grid) / when the forged id differs from the issued one (tamper); distinct = distinct (age, ti, tc, ip, ip2) tuples resp. distinct (point, alteration) pairs");
@@ -141,10 +162,10 @@ pub fn main(args: &Args) -> ! {
         let id = v.create_connection_id(addr(ip, 1));
         let mapped = IpAddr::V6(Ipv4Addr::new(1, 2, 3, 4).to_ipv6_mapped());
         evals += 2;
-        if !v.connection_id_valid(addr(ip, 65535), id) {
+        if !cv(&mut v, addr(ip, 65535), id) {
             run.violation("validator/port-bound", "id rejected from the same IP with another source port", json!({"signature":"validator/port-bound"}));
         }
-        if !v.connection_id_valid(addr(mapped, 7), id) {
+        if !cv(&mut v, addr(mapped, 7), id) {
             run.violation("validator/mapped", "id issued to 1.2.3.4 rejected from ::ffff:1.2.3.4 (same canonical address)", json!({"signature":"validator/mapped"}));
         }
     }
@@ -182,7 +203,7 @@ pub fn main(args: &Args) -> ! {
             let id = v.create_connection_id(addr(ip, 1)).0.get();
             let forged = forge(&mut v, id);
             v.verif_set_seconds_since_start(tc);
-            forged != id && v.connection_id_valid(addr(ip, 1), ConnectionId::new(forged))
+            forged != id && cv(&mut v, addr(ip, 1), ConnectionId::new(forged))
         })
     };
     for (pi, (a, ti, tc, ip)) in points.iter().enumerate() {
@@ -192,13 +213,13 @@ pub fn main(args: &Args) -> ! {
         // check times: the accepting one and issue time itself
         for check in [*tc, *ti] {
             v.verif_set_seconds_since_start(check);
-            if !v.connection_id_valid(addr(*ip, 1), ConnectionId::new(id)) {
+            if !cv(&mut v, addr(*ip, 1), ConnectionId::new(id)) {
                 continue;
             }
             for m in &masks {
                 tamper_trials += 1;
                 let forged = (id as u64 ^ m) as i64;
-                if v.connection_id_valid(addr(*ip, 1), ConnectionId::new(forged)) {
+                if cv(&mut v, addr(*ip, 1), ConnectionId::new(forged)) {
                     let m = *m;
                     if confirm(*a, *ti, check, *ip, &move |_, id| (id as u64 ^ m) as i64) {
                         run.violation("validator/tamper/bitflip-accepted", format!("id altered by xor mask {:#018x} accepted (age={} issued={} checked={} ip={})", m, a, ti, check, ip), json!({"signature":"validator/tamper/bitflip-accepted","age":a,"ti":ti,"tc":check,"ip":ip.to_string(),"ip2":ip.to_string(),"mask":format!("{:#x}",m)}));
@@ -210,7 +231,7 @@ pub fn main(args: &Args) -> ! {
             other.verif_set_seconds_since_start(*ti);
             let foreign = other.create_connection_id(addr(*ip, 1));
             tamper_trials += 1;
-            if foreign.0.get() != id && v.connection_id_valid(addr(*ip, 1), foreign) {
+            if foreign.0.get() != id && cv(&mut v, addr(*ip, 1), foreign) {
                 let ipc = *ip;
                 if confirm(*a, *ti, check, *ip, &move |_, _| { let mut o = validator(10); o.verif_set_seconds_since_start(5); o.create_connection_id(addr(ipc, 1)).0.get() }) {
                     run.violation("validator/tamper/foreign-key-accepted", "id issued by another validator instance accepted".to_string(), json!({"signature":"validator/tamper/foreign-key-accepted","age":a,"ti":ti,"tc":check,"ip":ip.to_string(),"ip2":ip.to_string()}));
@@ -221,7 +242,7 @@ pub fn main(args: &Args) -> ! {
                 v.verif_set_seconds_since_start(*ti);
                 let other_id = v.create_connection_id(addr(*ip2, 1));
                 v.verif_set_seconds_since_start(check);
-                if v.connection_id_valid(addr(*ip, 1), other_id) {
+                if cv(&mut v, addr(*ip, 1), other_id) {
                     let ip2c = *ip2;
                     let tic = *ti;
                     if confirm(*a, *ti, check, *ip, &move |v, _| { v.verif_set_seconds_since_start(tic); v.create_connection_id(addr(ip2c, 1)).0.get() }) {
@@ -253,7 +274,7 @@ pub fn main(args: &Args) -> ! {
                     continue;
                 }
                 tamper_trials += 1;
-                if v.connection_id_valid(addr(*ip, 1), ConnectionId::new(f)) {
+                if cv(&mut v, addr(*ip, 1), ConnectionId::new(f)) {
                     if confirm(*a, *ti, check, *ip, &move |_, _| f) {
                         run.violation("validator/tamper/forgery-accepted", format!("forged id {:#018x} accepted", f), json!({"signature":"validator/tamper/forgery-accepted","age":a,"ti":ti,"tc":check,"ip":ip.to_string(),"ip2":ip.to_string()}));
                     }
@@ -263,6 +284,9 @@ pub fn main(args: &Args) -> ! {
         if pi < 3 {
             run.sample(json!({"tamper_point": {"age": a, "issued_at": ti, "checked_at": tc, "ip": ip.to_string()}, "alterations": masks.len()}));
         }
+    }
+    if let Some((msg, id)) = PANICKED.with(|p| p.borrow_mut().take()) {
+        run.violation("validator/panic", format!("connection_id_valid panicked on a connection id taken from the network ({:#018x}): {}", id, msg), json!({"signature": "validator/panic", "age": 120, "ti": 10, "tc": 10, "ip": "1.2.3.4", "ip2": "1.2.3.4", "connection_id": id}));
     }
     run.set("tamper_trials", tamper_trials);
     run.set("tamper_points", points.len());
